@@ -220,6 +220,20 @@ Theorem C12_DQ_conj_add_sub : forall a b : V8 R,
 Proof. intros; repeat split; destruct_tuples; autounfold with smgen smlin; unfold dq_make, dq_real, dq_dual; sm_simpl; tuple_eq ltac:(ring). Qed.
 Print Assumptions C12_DQ_conj_add_sub.
 
+(* DualQuaternion.norm is the square root of the dual number  a + eps b,  a = <real,real>,  b = 2 <real,dual>
+   (the scalar parts of  real*conj(real)  and  real*conj(dual) + dual*conj(real)):  (n + eps m)^2 = n^2 + eps 2 n m.
+   Defined whenever the real part is not the zero quaternion. *)
+Theorem C12_DQ_norm_is_dual_sqrt : forall a : V8 R, 0 < tr_inner Rops (dq_real a) (dq_real a) ->
+  let n := fst (tr_DQ_norm Rops a) in let m := snd (tr_DQ_norm Rops a) in
+  0 < n /\ n * n = tr_inner Rops (dq_real a) (dq_real a) /\ 2 * n * m = 2 * tr_inner Rops (dq_real a) (dq_dual a).
+Proof.
+  intros a H. destruct_tuples. unfold dq_real, dq_dual in *. autounfold with smgen smlin in *. sm_simpl. cbn [fst snd].
+  match goal with |- context [sqrt ?x] => assert (Hx : 0 < x) by lra; pose proof (sqrt_sqrt x (Rlt_le _ _ Hx)) as Hs;
+    pose proof (sqrt_lt_R0 x Hx) as Hp; set (n := sqrt x) in * end.
+  repeat split; [exact Hp | lra | field; lra].
+Qed.
+Print Assumptions C12_DQ_norm_is_dual_sqrt.
+
 (* norm of the unit dual quaternion built from a rigid motion (unit rotation quaternion q, translation t):
    in L-real it is exactly (1, 0) *)
 Theorem C12_UDQ_norm : forall (q : V4 R) (t : V3 R), tr_inner Rops q q = 1 ->
@@ -228,10 +242,11 @@ Proof.
   intros q t H. destruct_tuples. autounfold with smgen smlin in *. unfold dq_make. sm_simpl.
   apply f_equal2.
   - rewrite <- sqrt_1. f_equal. nra.
-  - rewrite <- sqrt_0. f_equal. nra.
+  - match goal with |- _ * _ * ?e = 0 => replace e with 0 by field end. ring.
 Qed.
 Print Assumptions C12_UDQ_norm.
 
 (* non-vacuity of the hypotheses used above *)
-Example C12_nonvacuous : tr_inner Rops (3/5, 4/5, 0, 0) (3/5, 4/5, 0, 0) = 1 /\ normsq3 Rops (1/2, 1/2, 0) <= 1.
-Proof. autounfold with smgen smlin; sm_simpl; split; lra. Qed.
+Example C12_nonvacuous : tr_inner Rops (3/5, 4/5, 0, 0) (3/5, 4/5, 0, 0) = 1 /\ normsq3 Rops (1/2, 1/2, 0) <= 1
+  /\ 0 < tr_inner Rops (dq_real (1, 2, 3, 4, 5, 6, 7, 8)) (dq_real (1, 2, 3, 4, 5, 6, 7, 8)).
+Proof. unfold dq_real; autounfold with smgen smlin; sm_simpl; repeat split; lra. Qed.
